@@ -272,7 +272,9 @@ def run(ctx):
                     continue
             # strip_blackboxes on the circuit while the box is still there (pure function of c)
             for ign in ([], [ins[0]], [outs[0]]):
+                before_strip = Net.of(c).spec()
                 r, e = call(tx.strip_blackboxes, c, list(ign))
+                ctx.unchanged("strip_blackboxes", c, before_strip)
                 det = {"case": cid, "history": list(hist), "ignore_pins": ign}
                 if e is not None:
                     ctx.side("strip_blackboxes-raises", False, f"strip_blackboxes:raises:{type(e).__name__}", f"strip_blackboxes raised {e!r}", det)
